@@ -13,7 +13,9 @@
     (`∀ k : ℤ`), the composite operations FSWAP / ECR / CRX / CRY / CRZ included.  (The local
     statement is complete: the domain is finite.  Its lift to `n` qubits is the tensor structure
     `U_q ⊗ 1`: `T12_locality` proves that the update touches no other qubit; the assembled
-    operator identity is described, not proved, in `ConjugationAllQubits_statement`.)
+    operator identity described in `ConjugationAllQubits_statement` is proved in C12b.lean:
+    `T12_conjugation_all_qubits`, lifted to circuits and to "stabiliser state = state vector"
+    there; measurement outcomes against the Born rule are in C12c.lean.)
   * `T12_exponent_*` : `_exponent` is the power of `i` in the product of two Paulis, its parity is
     the commutation bit, hence `_rowsum`'s `… % 4 == 0` test is well defined on commuting rows.
   * `T12_symp_*`, `T12_valid_*` : for every register size, every gate on valid qubits and every
@@ -68,11 +70,11 @@ local statements above describe the whole update). -/
 theorem T12_locality (g : Gate) (w : Row) (k : Nat) (hk : k ∉ g.qubits) :
     (g.act w).x k = w.x k ∧ (g.act w).z k = w.z k := off_gate g w k hk
 
-/-- full operator statement for `n` qubits, kept visible but NOT proved in Lean: with `P(w)` the
-operator `(-1)^r ⊗_k σ(x k, z k)` on the `2^n`-dimensional space and `U_g` the embedded gate
-matrix, `U_g · P(w) = P(g.act w) · U_g`.  It is the tensor product of the local statement
-`T12_conj_*` on the gate's qubits with the identity on the others (`T12_locality`); the
-`…_partial` content proved here is exactly those two halves. -/
+/-- full operator statement for `n` qubits: with `P(w)` the operator `(-1)^r ⊗_k σ(x k, z k)` on the
+`2^n`-dimensional space and `U_g` the embedded gate matrix, `U_g · P(w) = P(g.act w) · U_g`.  It is
+the tensor product of the local statement `T12_conj_*` on the gate's qubits with the identity on
+the others (`T12_locality`).  Formal version: `ConjugationAllQubits` in C12b.lean (operators on
+state vectors of the simulator model), PROVED there as `T12_conjugation_all_qubits`. -/
 def ConjugationAllQubits_statement : String :=
   "∀ n g (ok : g.ok n) w, embed n g.qubits (mat g) * pauliOp n w = pauliOp n (g.act w) * embed n g.qubits (mat g)"
 
